@@ -150,23 +150,35 @@ def make_case(args):
 
     dw, auxw = make_world(rng, nf=rng.choice([8, 11]), nd=rng.choice([12, 18]))
     chw = {d: (-1 if d not in ("freq", "dir") else (3 if d == "freq" else 5)) for d in dw.dims}
-    if rng.random() < 0.5:
-        chw[[d for d in dw.dims if d not in ("freq", "dir")][0]] = 1
+    for d in dw.dims:
+        if d not in ("freq", "dir") and rng.random() < 0.7:
+            chw[d] = 1
     dsw = dw.to_dataset(name="efth")
     for k, v in auxw.items():
         dsw[k] = v
     W = {"smooth33": lambda x: x.spec.smooth(3, 3), "smooth51": lambda x: x.spec.smooth(5, 1), "smooth15": lambda x: x.spec.smooth(1, 5),
          "interp": C["interp"], "interp_like": C["interp_like"], "rotate_any": C["rotate_any"], "split": C["split"], "ptm5": C["ptm5"],
          "ds.interp": None, "ds.smooth": None, "ds.interp_like": None}
-    for op in rng.sample(sorted(W), 4):
+    for op in ["ds.interp", "ds.interp_like", "ds.smooth"] + rng.sample([k for k in sorted(W) if not k.startswith("ds.")], 2):
         rec = dict(op=f"window:{op}", icase=icase, chunks={k: v for k, v in chw.items()}, scheduler="synchronous", workers=None, dims=list(dw.dims),
                    shape=[int(dw.sizes[d]) for d in dw.dims], spectral_split=True)
         try:
             if op.startswith("ds."):
-                f = {"ds.interp": lambda x: x.spec.interp(freq=opcat._mid(x.freq.values), dir=np.arange(0.0, 360.0, 30.0)),
+                from wavespectra.core.utils import regrid_spec
+
+                # regrid_spec on the Dataset itself: the side variables are carried into the result (ds.spec.interp returns efth only)
+                f = {"ds.interp": lambda x: regrid_spec(x, freq=opcat._mid(x.freq.values), dir=np.arange(0.0, 360.0, 30.0)),
                      "ds.smooth": lambda x: x.spec.smooth(3, 3), "ds.interp_like": lambda x: x.spec.interp_like(opcat._coarser(x.efth))}[op]
                 ref = opcat.canon(compute(f(dsw)))
-                got = opcat.canon(compute(f(dsw.chunk(chw)), scheduler="synchronous"))
+                if rng.random() < 0.5:
+                    dsc = dsw.chunk(chw)
+                else:
+                    # the variables of one Dataset chunked differently from each other (native chunks of a store): the spectra one
+                    # record per chunk, the side variables in a single chunk
+                    lead1 = {d: 1 for d in dw.dims if d not in ("freq", "dir")}
+                    dsc = dsw.assign(efth=dsw.efth.chunk(dict(chw, **lead1)), **{k: dsw[k].chunk(-1) for k in auxw})
+                    rec["chunks"] = "efth: one record per chunk + spectral dims split; side variables: single chunk"
+                got = opcat.canon(compute(f(dsc), scheduler="synchronous"))
             else:
                 f = W[op]
                 ref = opcat.canon(compute(f(dw, auxw) if op in C else f(dw)))
